@@ -75,6 +75,31 @@ theorem struct_unpack_pack (e : Char) (codes : List Char) (vals : List Val) (hfi
     Struct.unpack e codes (d ++ rest) = .ok vals := by
   exact struct_unpack_pack' e codes vals hfin d rest h
 
+/-! ### The list form `pack([f1, f2, …], *values)` -/
+
+/-- The code joins the token lists of the format strings and runs one loop (`tokens.extend`); that is the
+    concatenation of packing each token list with its own values. -/
+theorem packTokens_append (t1 t2 : List (String × Nat)) (v1 v2 : List Val) (h : v1.length = t1.length) :
+    packTokens (t1 ++ t2) (v1 ++ v2) =
+      (match packTokens t1 v1 with
+       | .error e => .error e
+       | .ok b1 =>
+         match packTokens t2 v2 with
+         | .error e => .error e
+         | .ok b2 => .ok (b1 ++ b2)) := by
+  exact packTokens_append' t1 t2 v1 v2 h
+
+/-- `pack([f, …rest], *v1, *v2)` = `pack(f, *v1)` followed by `pack([…rest], *v2)` (hence, with `pack_struct_eq`, the
+    concatenation of `struct.pack` of every part), and it fails exactly when one of them fails. -/
+theorem pack_list_eq_concat (f : String) (fs : List String) (e : Char) (codes : List Char)
+    (hm : matchStructFmt f = some (e, codes)) (he : e ∈ specEndians) (hc : ∀ c ∈ codes, c ∈ specCodes)
+    (v1 v2 : List Val) (hlen : v1.length = codes.length) :
+    (packList (f :: fs) (v1 ++ v2)).toOption =
+      (match pack f v1, packList fs v2 with
+       | .ok b1, .ok b2 => some (b1 ++ b2)
+       | _, _ => none) := by
+  exact pack_list_eq_concat' f fs e codes hm he hc v1 v2 hlen
+
 /-! ### Python floats that are not representable in the target format
 
 `float2bitstore` hands the float to `struct.pack`, which rounds to nearest-even and raises `OverflowError` only when
@@ -132,6 +157,8 @@ example : (pack "<2hq" [.int 1, .int (-2), .int 3]).toOption
 example : matchStructFmt "<2hq" = some ('<', ['h', 'h', 'q']) := by decide +kernel
 example : (Struct.pack '>' ['e', 'B'] [.flt 0x3c00, .int 255]).toOption = some [0x3c, 0x00, 0xff] := by decide +kernel
 example : (unpack ">hb" (bitsOfBytes [0xff, 0x01, 0x80])).toOption = some [.int (-255), .int (-128)] := by decide +kernel
+example : (packList ["<hI", ">H"] [.int (-2), .int 0xdeadbeef, .int 3]).toOption
+    = some (bitsOfBytes [0xfe, 0xff, 0xef, 0xbe, 0xad, 0xde, 0, 3]) := by decide +kernel
 example : valsFinite ['e'] [.flt 0x7c00] = true ∧ valsFinite ['e'] [.flt 0x7c01] = false := by decide +kernel
 
 end BM.C18
